@@ -92,7 +92,7 @@ CLAIMED = {
    level="exploration",
    text="Pure invariant check on the interpreter's own GlobalData.configuration, snapshotted after start-up, after every microstep and at every idle point of generated statecharts (parallel, history, finals, internal/targetless/multi-target transitions, three data models) under generated event sequences: legality per W3C 3.11 plus enter/exit stream invariants (no entry while active, no exit while inactive, exits before entries, stream consistent with snapshots).",
    design="6/C01",
-   note="Trusted: recording tracer + snapshots (harness/src/runner.rs) and the legality predicate (checks/c01.rs). One open known finding (re-entry prescribed by the W3C history-ancestor rule) is matched by signature only where the reference interpreter prescribes the same Enter.",
+   note="Trusted: recording tracer + snapshots (harness/src/runner.rs) and the legality predicate (checks/c01.rs). One open known finding (re-entry of active ancestors prescribed by the W3C history-ancestor rule, two signatures: the re-entry itself and the illegal configuration it can leave in that very microstep) is matched structurally: document pattern + selected transitions, not by comparing with the reference run.",
    technique="property-based testing of a state invariant over generated documents and event histories"),
  "C02": dict(
    level="exploration",
